@@ -1,0 +1,20 @@
+//go:build verif
+
+// Machine-checked contracts for this package (comment-only; compiled only with -tags verif,
+// and even then contributes no code).  Read by /verif/govc; see /verif/DESIGN.md.
+
+package calc
+
+//@ -- ---------------------------------------------------------------- C43: same-subnet test
+//@ -- A node is "in our subnet" iff both nodes are known, our own CIDR of that family is set (non-zero), and
+//@ -- the other node's address agrees with our network on the first prefix bits (plain mask arithmetic).
+//@ func (*L3RouteResolver).nodeInOurSubnet
+//@   property C43
+//@   requires c != nil
+//@   requires forall n string :: n in c.nodeNameToNodeInfo ==> c.nodeNameToNodeInfo[n].V4CIDR.prefix <= 32 && c.nodeNameToNodeInfo[n].V6CIDR.prefix <= 128
+//@   ensures res == ((c.myNodeName in c.nodeNameToNodeInfo) && (name in c.nodeNameToNodeInfo)
+//@             && ((ipFamily == 4 && c.nodeNameToNodeInfo[c.myNodeName].V4CIDR != zero(ip.V4CIDR)
+//@                     && v4agree(c.nodeNameToNodeInfo[c.myNodeName].V4CIDR.addr, c.nodeNameToNodeInfo[name].V4Addr, c.nodeNameToNodeInfo[c.myNodeName].V4CIDR.prefix))
+//@              || (ipFamily == 6 && c.nodeNameToNodeInfo[c.myNodeName].V6CIDR != zero(ip.V6CIDR)
+//@                     && v6agree(c.nodeNameToNodeInfo[c.myNodeName].V6CIDR.addr, c.nodeNameToNodeInfo[name].V6Addr, c.nodeNameToNodeInfo[c.myNodeName].V6CIDR.prefix))))
+//@   assigns nothing
